@@ -8,7 +8,7 @@
 From Verif Require Import Base Regex Token TokEngine Lex LexProofs Headers Blocks Pairing Fold ScanFile Spec HeaderSpec
   LexShapes ShapeProofs Grammar GrammarAll.
 From Verif Require Import GrammarProofsParen GrammarProofsBrace GrammarProofsHeaders.
-From Verif Require Import GrammarAllProofsTok GrammarAllProofsWf GrammarAllProofsSel GrammarAllProofsCand GrammarAllProofsItems GrammarAllProofsJava GrammarAllProofsTS.
+From Verif Require Import GrammarAllProofsTok GrammarAllProofsWf GrammarAllProofsSel GrammarAllProofsCand GrammarAllProofsCb GrammarAllProofsItems GrammarAllProofsJava GrammarAllProofsTS.
 From Verif Require Import SpecCheck SpecCheckAll.
 From Coq Require Import Sorted Permutation.
 Open Scope nat_scope.
@@ -19,7 +19,8 @@ Lemma canonical_cfamily_shape l ts ds : is_cfamily l = true -> l <> LJava -> can
 Proof.
   intros Hl HnJ H.
   pose proof (canonical_two_shapes no_throws_kw any_tokens l cand_plain follow_brace cand_never follow_brace
-                (good_oksel _ _ _ _ (good_plain l)) (good_oksel _ _ _ _ (good_never l))
+                (good_oksel _ _ _ _ (good_plain l) (fun w => fsuf_plain follow_brace w fshift_brace frejects_brace))
+                (good_oksel _ _ _ _ (good_never l) (fun _ _ => eq_refl))
                 (head_split_cfamily l Hl HnJ) ts ds (items_of_citems l 0 ts ds H)) as HP.
   unfold shape_headers at 2 in HP. rewrite select_never, app_nil_r in HP.
   rewrite lexical_headers_shape. exact HP.
@@ -30,7 +31,8 @@ Lemma canonical_javascript_shape ts ds : canonical_program_of LJavaScript ts ds 
 Proof.
   intros H. unfold lexical_headers_JavaScript.
   exact (canonical_two_shapes no_throws_kw any_tokens LJavaScript cand_function follow_brace cand_arrow follow_brace
-           (good_oksel _ _ _ _ (good_function LJavaScript)) (good_oksel _ _ _ _ (good_arrow LJavaScript))
+           (good_oksel _ _ _ _ (good_function LJavaScript) (fun w => fsuf_function follow_brace w fshift_brace frejects_brace))
+           (good_oksel _ _ _ _ (good_arrow LJavaScript) fsuf_arrow)
            head_split_javascript ts ds (items_of_citems LJavaScript 0 ts ds H)).
 Qed.
 
@@ -378,6 +380,71 @@ Example brace_params_scan :
   scan_file LTypeScript ts6 = expected_all ts6 ts6_ds ts6_ds.
 Proof. vm_compute. split; reflexivity. Qed.
 
+(* callback statements (rule io_cb):
+   function outer ( ) { run ( "x" , function ( ) { y ; } ) ; }                            (JavaScript)
+   items . forEach ( ( item ) => { y ; function inner ( ) { z ; } } ) ;                    (TypeScript) *)
+Definition js7 : list token :=
+  toks [(0,s_function);(1,[111;117;116;101;114]);(2,[40]);(2,[41]);(2,[123]);
+        (1,[114;117;110]);(2,[40]);(7,[34;120;34]);(2,[44]);(0,s_function);(2,[40]);(2,[41]);(2,[123]);(1,[121]);(2,[59]);(2,[125]);(2,[41]);(2,[59]);
+        (2,[125])]%Z.
+Definition js7_ds : list fdesc := [mkFd 1 0 4 4 18].
+Definition ts7 : list token :=
+  toks [(1,[105;116;101;109;115]);(3,[46]);(1,[102;111;114;69;97;99;104]);(2,[40]);(2,[40]);(1,[105;116;101;109]);(2,[41]);(2,s_arrow);(2,[123]);
+        (1,[121]);(2,[59]);(0,s_function);(1,[105;110;110;101;114]);(2,[40]);(2,[41]);(2,[123]);(1,[122]);(2,[59]);(2,[125]);
+        (2,[125]);(2,[41]);(2,[59])]%Z.
+Definition ts7_ds : list fdesc := [mkFd 12 11 15 15 18].
+
+Example js7_canonical : canonical_program_of LJavaScript js7 js7_ds.
+Proof.
+  unfold canonical_program_of, js7_ds.
+  let s := eval vm_compute in js7 in change js7 with s.
+  apply (io_func LJavaScript 0 [] [_; _; _; _] 1 4 _ [_; _; _; _; _; _; _; _; _; _; _; _; _] _ [] [] []);
+    [reflexivity | | reflexivity | reflexivity | | discriminate | constructor].
+  - apply (fh_function LJavaScript _ _ [_; _]); [reflexivity | reflexivity | reflexivity | apply (one_bgroup _ [] _); reflexivity].
+  - (* run ( "x" , function ( ) { y ; } ) ; *)
+    cbn [length Nat.add].
+    apply (io_cb LJavaScript 5 [_; _; _; _] [_; _; _] _ [_; _] _ [_] _ [] [] []);
+      [reflexivity | discriminate | apply open_prefix_of_b; reflexivity | right; reflexivity | | reflexivity | reflexivity
+       | reflexivity | reflexivity | | constructor].
+    + apply (cbt_function _ [_; _]); [reflexivity | apply (one_group _ [] _); reflexivity].
+    + apply (io_stmt LJavaScript _ [_; _] [] []); [apply one_stmt; reflexivity | constructor].
+Qed.
+
+Example ts7_canonical : canonical_program_of LTypeScript ts7 ts7_ds.
+Proof.
+  unfold canonical_program_of, ts7_ds.
+  let s := eval vm_compute in ts7 in change ts7 with s.
+  apply (io_cb LTypeScript 0 [_; _; _; _] [_; _; _; _] _ [_; _; _; _; _; _; _; _; _; _] _ [_] _ [] [_] []);
+    [reflexivity | discriminate | apply open_prefix_of_b; reflexivity | left; reflexivity | | reflexivity | reflexivity
+     | reflexivity | reflexivity | | constructor].
+  - apply (cbt_arrow [_; _; _] _); [apply (one_group _ [_] _); reflexivity | reflexivity].
+  - (* y ; function inner ( ) { z ; } *)
+    cbn [length Nat.add].
+    apply (io_stmt LTypeScript _ [_; _] _ _); [apply one_stmt; reflexivity|].
+    cbn [length Nat.add].
+    apply (io_func LTypeScript 11 [] [_; _; _; _] 1 4 _ [_; _] _ [] [] []);
+      [reflexivity | | reflexivity | reflexivity | | discriminate | constructor].
+    + apply (fh_function LTypeScript _ _ [_; _]); [reflexivity | reflexivity | reflexivity | apply (one_bgroup _ [] _); reflexivity].
+    + apply (io_stmt LTypeScript _ [_; _] [] []); [apply one_stmt; reflexivity | constructor].
+Qed.
+
+Example callback_hypotheses :
+  (wf_descs js7 js7_ds /\ lexically_canonical_of LJavaScript js7 js7_ds) /\
+  (wf_descs ts7 ts7_ds /\ lexically_canonical_of LTypeScript ts7 ts7_ds).
+Proof.
+  split; split.
+  - apply (canonical_of_wf LJavaScript); [discriminate | exact js7_canonical].
+  - apply (canonical_of_lexical LJavaScript); [discriminate | exact js7_canonical].
+  - apply (canonical_of_wf LTypeScript); [discriminate | exact ts7_canonical].
+  - apply (canonical_of_lexical LTypeScript); [discriminate | exact ts7_canonical].
+Qed.
+
+(* on these streams the scan equals the specification (computed) *)
+Example callback_scan :
+  scan_file LJavaScript js7 = expected_all js7 js7_ds js7_ds /\
+  scan_file LTypeScript ts7 = expected_all ts7 ts7_ds ts7_ds.
+Proof. vm_compute. split; reflexivity. Qed.
+
 (* the hypotheses of the end-to-end theorem hold of the examples: by the theorems ... *)
 Example ts1_hypotheses : wf_descs ts1 ds1 /\ lexically_canonical_of LTypeScript ts1 ds1.
 Proof.
@@ -406,5 +473,7 @@ Example examples_checked :
   wf_descs_b c4 c4_ds = true /\ lexically_canonical_of_b LC c4 c4_ds = true /\
   wf_descs_b ts5 ts5_ds = true /\ lexically_canonical_of_b LTypeScript ts5 ts5_ds = true /\
   wf_descs_b js6 js6_ds = true /\ lexically_canonical_of_b LJavaScript js6 js6_ds = true /\
-  wf_descs_b ts6 ts6_ds = true /\ lexically_canonical_of_b LTypeScript ts6 ts6_ds = true.
+  wf_descs_b ts6 ts6_ds = true /\ lexically_canonical_of_b LTypeScript ts6 ts6_ds = true /\
+  wf_descs_b js7 js7_ds = true /\ lexically_canonical_of_b LJavaScript js7 js7_ds = true /\
+  wf_descs_b ts7 ts7_ds = true /\ lexically_canonical_of_b LTypeScript ts7 ts7_ds = true.
 Proof. vm_compute. repeat split; reflexivity. Qed.
